@@ -260,6 +260,7 @@ def run_phase(root: str, phase: dict, trace=None, rng_seed: str = "") -> dict:  
         "events_digest": sim.events_digest(),
         "fired": sim.fired,
         "kill_sites": sim.kill_sites,
+        "error_sites": sim.error_sites,
         "probes": sim.probes,
         "killed": [a.idx for a in sim.actors if a.state == "killed"],
         "killed_at": sim.killed_at,
